@@ -9,7 +9,7 @@ from ..core import AnalysisError, Report
 from ..linexpr import Env, py_ir, to_lin
 from ..pycfg import build_py_cfg, run_typestate
 from ..pysubst import method_outcomes
-from ..pyfacts import Repo, cc, cn, inline_pure_temps, clone, eval_int_expr, calls, dotted, norm, raise_guards, raised_class, walk_no_nested
+from ..pyfacts import Repo, cc, cn, inline_module_constants, inline_pure_temps, clone, eval_int_expr, calls, dotted, norm, raise_guards, raised_class, walk_no_nested
 
 ASM = 'flipjump/assembler/assembler.py'
 PRE = 'flipjump/assembler/preprocessor.py'
@@ -25,20 +25,47 @@ def _union_members(repo: Repo, name: str) -> Set[str]:
 
 
 def _isinstance_chain(fn: ast.FunctionDef, var: str) -> Tuple[List[Tuple[Set[str], List[ast.stmt]]], Optional[List[ast.stmt]]]:
-    """branches of the `if isinstance(var, X) ... elif ... else` chain inside the function's main loop."""
+    """branches of the isinstance dispatch on `var` inside the function's main loop, in either spelling:
+    `if isinstance(var, X): .. elif .. else: ..`, or a run of `if isinstance(var, X): ..; continue` statements whose tail is the
+    default branch. -> ([(types, body)], default body or None)"""
+    def is_test(t: ast.expr) -> bool:
+        return f'isinstance({var},' in norm(t)
+
+    def types_of(t: ast.expr) -> Set[str]:
+        out: Set[str] = set()
+        for c in ast.walk(t):
+            if isinstance(c, ast.Call) and dotted(c.func) == 'isinstance' and len(c.args) == 2:
+                ty = c.args[1]
+                out |= {norm(e) for e in ty.elts} if isinstance(ty, ast.Tuple) else {norm(ty)}
+        return out
+
     loops = [n for n in ast.walk(fn) if isinstance(n, ast.For)]
     for lp in loops:
-        for st in lp.body:
-            if isinstance(st, ast.If) and f'isinstance({var},' in norm(st.test):
-                out: List[Tuple[Set[str], List[ast.stmt]]] = []
-                cur: Any = st
-                while True:
-                    types = {norm(c.args[1]) for c in ast.walk(cur.test) if isinstance(c, ast.Call) and dotted(c.func) == 'isinstance'}
-                    out.append((types, cur.body))
-                    if len(cur.orelse) == 1 and isinstance(cur.orelse[0], ast.If):
-                        cur = cur.orelse[0]
-                        continue
-                    return out, cur.orelse or None
+        body = list(lp.body)
+        for k, st in enumerate(body):
+            if not (isinstance(st, ast.If) and is_test(st.test)):
+                continue
+            out: List[Tuple[Set[str], List[ast.stmt]]] = []
+            cur: Any = st
+            while True:
+                out.append((types_of(cur.test), cur.body))
+                if len(cur.orelse) == 1 and isinstance(cur.orelse[0], ast.If) and is_test(cur.orelse[0].test):
+                    cur = cur.orelse[0]
+                    continue
+                break
+            if cur.orelse:
+                return out, cur.orelse
+            # no else: a run of sibling `if isinstance(..): ...; continue` statements, then the default tail
+            tail = body[k + 1:]
+            ended = lambda b: bool(b) and isinstance(b[-1], (ast.Continue, ast.Return, ast.Raise))
+            if ended(out[-1][1]):
+                out[-1] = (out[-1][0], [x for x in out[-1][1] if not isinstance(x, ast.Continue)])
+                j = 0
+                while j < len(tail) and isinstance(tail[j], ast.If) and is_test(tail[j].test) and not tail[j].orelse and ended(tail[j].body):
+                    out.append((types_of(tail[j].test), [x for x in tail[j].body if not isinstance(x, ast.Continue)]))
+                    j += 1
+                return out, tail[j:] or None
+            return out, None
     raise AnalysisError(f'{fn.name}: isinstance dispatch chain not found')
 
 
@@ -63,7 +90,13 @@ def _self_updates(fn: ast.FunctionDef, attr: str) -> List[Tuple[str, str]]:
         if isinstance(n, ast.AugAssign) and isinstance(n.target, ast.Attribute) and n.target.attr == attr and isinstance(n.op, ast.Add):
             out.append(('+=', n.value))
         elif isinstance(n, ast.Assign) and isinstance(n.targets[0], ast.Attribute) and n.targets[0].attr == attr:
-            out.append(('=', n.value))
+            v, t = n.value, norm(n.targets[0])
+            if isinstance(v, ast.BinOp) and isinstance(v.op, ast.Add) and norm(v.left) == t:
+                out.append(('+=', v.right))            # `x = x + y` is `x += y`
+            elif isinstance(v, ast.BinOp) and isinstance(v.op, ast.Add) and norm(v.right) == t:
+                out.append(('+=', v.left))
+            else:
+                out.append(('=', v))
     return out       # type: ignore[return-value]
 
 
@@ -147,11 +180,13 @@ def rule_addr_model(rep: Report, repo: Repo) -> None:
               f'{PRE}:{ins.lineno}', expected='both cursors := the segment start')
     # ReserveBits
     ir = repo.func(PRE, 'PreprocessorData.insert_reserve')
-    body = [norm(s) for s in ir.body]
+    iro = method_outcomes(repo, PRE, 'PreprocessorData', 'insert_reserve')
+    body = [f'{k} = {v}' for o in iro for k, v in sorted(o.state.items())] + [e for o in iro for e in o.effects] if len(iro) == 1 else ['<more than one path>']
     rb = repo.func(ASM, 'BinaryData.insert_reserve_bits')
     asm_rb = final_state('insert_reserve_bits')
     rb_call = [[norm(a) for a in c.args] for s in br.get(frozenset({'ReserveBits'}), []) for c in ast.walk(s) if isinstance(c, ast.Call) and dotted(c.func) == 'binary_data.insert_reserve_bits']
-    ok = body == ['self.curr_address += reserved_bits_size', 'self.result_ops.append(ReserveBits(self.curr_address))'] and \
+    ok = body == ['self.curr_address = self.curr_address + reserved_bits_size',
+                  'self.result_ops.append(ReserveBits(self.curr_address + reserved_bits_size))'] and \
         asm_rb.get('self.first_address') == 'new_first_address' and asm_rb.get('self.current_address') == 'new_first_address' and \
         rb_call == [['fjm_writer', 'op.first_address_after_reserved']]
     rep.check(ok, 'C02.ADDR-MODEL', 'ReserveBits', f'preprocessor {body}; emitter {asm_rb} from {rb_call}', f'{PRE}:{ir.lineno}',
@@ -247,6 +282,7 @@ def rule_paired(rep: Report, repo: Repo) -> None:
     rep.check(ok_hole and len(outs) == 2, 'C02.PAIRED-UPDATE', 'get_wflip_spot:pad-hole', f'{[(o.effects, o.result) for o in holes]}', f'{ASM}:{sp.lineno}',
               expected='hole address = segment first address + w * word index; each hole used once (one pop)')
     pad = inline_pure_temps(repo.func(ASM, 'BinaryData.insert_padding'))
+    pad.body = [inline_module_constants(repo, ASM, st) for st in pad.body]          # type: ignore[arg-type,misc]
     # two equivalent shapes are recognised: the append loop, and extend(range(..)) + one bulk extension of the word list. in both
     # the recorded indices are range(L, L + 2k, 2) with L = len(fj_words) on entry and the word list grows by 2k zero words
     class LenL(ast.NodeTransformer):
